@@ -124,7 +124,7 @@ class Case:
         self.spec = spec
         self.nodes = [(op, tuple(args)) for op, args in spec["nodes"]]
         self.req = spec["req"]
-        self.sig = sig_of("prog", {"nodes": spec["nodes"], "req": spec["req"]}, None)
+        self.sig = sig_of("prog", {"nodes": spec["nodes"], "req": spec["req"]}, {"twice": True} if spec.get("twice") else None)
 
     def build(self, leaves, order):
         vals = list(leaves) + [None] * len(self.nodes)
@@ -194,10 +194,18 @@ class Case:
                     ok_order = False
         out.fact("consumers are differentiated before their operands (reverse topological order)", ok_order)
         # a leaf the root does not depend on must be left alone (no gradient buffer at all)
-        out.vjp = dict(outs=[root.data], gs=[g],
+        outs_, gs_ = [root.data], [g]
+        if self.spec.get("twice"):
+            # the same root differentiated again with another upstream gradient: every leaf accumulates the second VJP
+            h = env.arr("h", root.shape, lo=-2, hi=2)
+            root.backward(Tn(h))
+            outs_, gs_ = [root.data, root.data], [g, h]
+        out.vjp = dict(outs=outs_, gs=gs_,
                        inputs=[("L%d" % i, t.data, gradof(t), t.requires_grad and id(t) in seen)
                                for i, t in enumerate(leaves)])
         out.notes["names"] = names
+        if self.spec.get("twice"):
+            return out
         # (c) a different construction order of the independent sub-expressions gives the same gradients
         order2 = alt_order(self.nodes, n_leaves)
         if order2 != list(range(len(self.nodes))):
@@ -243,6 +251,10 @@ def enumerate_specs(tier, seed=0):
     for p in extra:
         for m in masks2:
             specs.append({"nodes": p, "req": list(m)})
+    # the same root differentiated twice with different upstream gradients (a sample of the programs above)
+    base = [sp_ for sp_ in specs if all(sp_["req"])]
+    for sp_ in base[:: (12 if tier == "quick" else 6)]:
+        specs.append(dict(sp_, twice=True))
     return specs
 
 
